@@ -127,7 +127,10 @@ def _late_model(seed, mod, durs, mode='callback'):
             extra = {str(kk): list(v) for kk, v in made[0].data.items()} if hasattr(made[0], 'data') else None
         elif made:
             extra = (made[0].current_state, list(calls))
-        return dict(now=system.env.now, count=snk.received_parts_count, data={l: d for l, d in data.items()}, created=len(made), extra=extra)
+        # look-ups by an id that is equal to an asset's id but another int object: what they find may not depend on how large the ids
+        # are, i.e. on how many assets were created earlier in the process
+        byid = [len(system.find_assets(id_=int(str(a.id)))) for a in (src, m, snk)]
+        return dict(now=system.env.now, count=snk.received_parts_count, data={l: d for l, d in data.items()}, created=len(made), extra=extra, byid=byid)
 
 
 def run_split_late(sc):
@@ -140,7 +143,7 @@ def run_split_late(sc):
     # (all tie-break weights equal, so that the extra event of the second variant changes no choice)
     ev = _late_model(seed, 1, [a, b], 'event')
     bt = _late_model(seed, 1, [a, b], 'between')
-    return dict(a=a, b=b, same=(whole == parts), whole=whole if whole != parts else None, parts=parts if whole != parts else None,
+    return dict(byid=whole['byid'], a=a, b=b, same=(whole == parts), whole=whole if whole != parts else None, parts=parts if whole != parts else None,
                 same_at_split=(ev == bt), ev=ev if ev != bt else None, bt=bt if ev != bt else None)
 
 
@@ -200,6 +203,9 @@ def monitor_c14(sc, obs):
             return dict(now=r['now'], count=r['count'], created=r['created'], extra=r['extra'])
         bad('C14/split-differs', 'a line whose sink callback creates a further asset during the run: simulate(%d) then simulate(%d) ends differently from simulate(%d) (tie-break choices held fixed): %s vs %s'
             % (sl['a'], sl['b'], sl['a'] + sl['b'], brief(sl['parts']), brief(sl['whole'])))
+    if sl and sl.get('byid') not in (None, [1, 1, 1]):
+        bad('C14/depends-on-id-offset', 'find_assets(id_=<an int equal to the id>) finds %s assets for source, machine and sink (asset ids of this run start above %d): with small ids each is found once'
+            % (sl['byid'], 256))
     if sl and not sl.get('same_at_split', True):
         def brief2(r):
             return dict(now=r['now'], count=r['count'], created=r['created'], extra=r['extra'])
